@@ -303,3 +303,21 @@ Example ex_reduce_hyps_double : 1 < 53 /\ 2 <= 2 ^ 50 - 1 <= 2 ^ (53 - 1) /\ Z.a
 Proof. vm_compute. repeat split; try reflexivity; discriminate. Qed.
 Example ex_reduce_hyps_float : 1 < 24 /\ 2 <= 2 ^ 21 - 1 <= 2 ^ (24 - 1) /\ ex_generic_ok 24 (SI i16) (-32768) /\ ex_generic_ok 53 (SLL true) (2 ^ 53 - 1).
 Proof. vm_compute. repeat split; try reflexivity; discriminate. Qed.
+
+(* every source type that has an init form, as ONE statement: the specialisations (ProofsRings.ex_init_specialised_correct) and the
+   generic template together *)
+From C04 Require Import ProofsRings.
+Definition ex_every_ok (prec : Z) (s : src) (a : Z) : Prop := ex_src_ok prec s a \/ ex_generic_ok prec s a.
+Theorem ex_init_every_source prec p s a : 1 < prec -> 2 <= p <= 2 ^ (prec - 1) -> ex_every_ok prec s a ->
+  exists r, ex_init prec p s a = Some r /\ residue p a r.
+Proof.
+  intros Hprec Hp [H|H]; [apply ex_init_specialised_correct; [lia|exact H] | apply ex_init_generic_correct; auto].
+Qed.
+(* mOne((Element)p - 1.0) is the image of -1 *)
+Theorem ex_mone_correct prec p : 1 < prec -> 2 <= p <= 2 ^ (prec - 1) -> residue p (-1) (mone (RExt prec) p).
+Proof.
+  intros Hprec Hp. cbn [mone]. assert (2 ^ prec = 2 * 2 ^ (prec - 1)) by (apply pow2_S; lia).
+  rewrite rnd_exact by lia. split; [lia|]. apply (cong_intro p _ _ 1); lia.
+Qed.
+Example ex_every_ok_sat : ex_every_ok 53 (SI i64) (- 2 ^ 63) /\ ex_every_ok 53 (SI i32) (- 2 ^ 31) /\ ex_every_ok 24 SInteger (10 ^ 40) /\ ex_every_ok 24 (SLL false) (2 ^ 24 - 1).
+Proof. repeat split; try (left; vm_compute; repeat split; congruence); right; vm_compute; repeat split; congruence. Qed.
